@@ -590,8 +590,8 @@ pub unsafe extern "C" fn SFileSetFilePointer(
     // Calculate new position
     let new_pos = match move_method {
         0 => offset as usize,                                   // FILE_BEGIN
-        1 => (file_handle.position as i64 + offset) as usize,   // FILE_CURRENT
-        2 => (file_handle.data.len() as i64 + offset) as usize, // FILE_END
+        1 => (file_handle.position as i64).saturating_add(offset) as usize, // FILE_CURRENT
+        2 => (file_handle.data.len() as i64).saturating_add(offset) as usize, // FILE_END
         _ => {
             set_last_error(ERROR_INVALID_PARAMETER);
             return 0xFFFFFFFF;
